@@ -32,7 +32,7 @@ SUFFIXES = [(False, []), (True, []), (False, ["x"]), (False, ["a/b"]), (False, [
             # blank space at the end of the suffix belongs to its last token (it used to be stripped: fixed in 6f06955)
             (False, ["foo "]), (False, ["a", "\u3000"]), (False, ["x", " "]), (False, ["y\n"])]
 MALFORMED = ["", "abc", "-1", "+1", "00", "01/a", "0+0", "0-0", "0+01", "0+", "0-", "0+/a", "1 #", " 1", "1#x", "0##", "0a",
-             "0/a ", "0 /a", "1" * 30, "0+" + "1" * 25, "１", "0+１", "0-1#", "2-12/x/y", "0\\u0023", "0/a\\", "1" * 4301, "0+" + "2" * 4301, "0\n", "0\n/a", "1\n#", "0#\n", "0+1\n", "\n0", "0/a\n"]
+             "0/a ", "0 /a", "1" * 30, "0+" + "1" * 25, "１", "0+１", "0-1#", "2-12/x/y", "0\\u0023", "0/a\\", "1" * 4301, "0+" + "2" * 4301, "0-" + "9" * 4300, "0-" + "9" * 4299, "0\n", "0\n/a", "1\n#", "0#\n", "0+1\n", "\n0", "0/a\n"]
 
 
 def rel_text(origin, offset, is_hash, suffix):
@@ -75,7 +75,7 @@ def gen(ctx):
                 for is_hash, suf in SUFFIXES[:3]:
                     cases.append({"kind": "negbase", "base": list(b), "origin": origin, "offset": off, "hash": is_hash, "suffix": suf})
     for s in MALFORMED:
-        for b in [(), ("a",), ("a", "2")]:
+        for b in [(), ("a",), ("a", "2"), ("a", "-1"), ("-5",)]:
             cases.append({"kind": "malformed", "base": list(b), "text": s})
     return cases
 
@@ -197,4 +197,11 @@ def search(ctx):
 
 
 def probe(kf):
-    return False
+    """Replay a recorded known finding on the implementation; True if it still fails."""
+    from jsonpath import JSONPointer, RelativeJSONPointer
+
+    pr = kf["probe"]
+    try:
+        return str(RelativeJSONPointer(pr["rel"]).to(JSONPointer(pr["base"]))) != pr["expect"]
+    except Exception:  # noqa: BLE001
+        return True
